@@ -272,6 +272,7 @@ def mutants():
     from ..selftest import TextMutant as T
     S = "serializer.py"
     return [
+        T("pragma-substitute", REL, "                            token[\"data\"][(None, \"content\")] = 'text/html; charset=%s' % self.encoding", "                            token[\"data\"][(None, \"content\")] = token[\"data\"][(None, \"content\")].replace(\"charset=x\", 'charset=%s' % self.encoding)", "R15.2"),
         T("flag-never-reset", REL, "                    # replace charset with actual encoding\n                    has_http_equiv_content_type = False\n",
           "                    # replace charset with actual encoding\n", "R15.2"),
         T("found-without-content", REL, "                        if has_http_equiv_content_type and (None, \"content\") in token[\"data\"]:\n                            token[\"data\"][(None, \"content\")] = 'text/html; charset=%s' % self.encoding\n                            meta_found = True",
